@@ -1,10 +1,13 @@
 // Command valphabet is the Go side of the C17 check (biogo/alphabet):
 //
 //	valphabet builtins -seed S -n N -out F   the 7 built-in alphabets, every accessor over all 256 letters,
-//	                                         AllValid on all short and N random slices per alphabet
+//	                                         AllValid on all short and N random slices per alphabet, and on
+//	                                         slices with runs of letters >= 128 (well-formed UTF-8 whose code
+//	                                         point has the low byte of a valid letter, malformed runs)
 //	valphabet cases -in CASES -out F         the definitions of an ndjson file (emitted by TLC from the
 //	                                         bounded model of Alphabet.tla, or a replay file)
-//	valphabet random -seed S -n N -out F     N random alphabets, pairings, complementors and slices each
+//	valphabet random -seed S -n N -out F     N random alphabets, pairings, complementors, slices and slices
+//	                                         with runs of letters >= 128 each
 package main
 
 import (
